@@ -36,6 +36,8 @@ type c28Hop struct {
 	// whether the AS entry carries the detachable EPIC extension
 	Beta    uint16
 	HasEpic bool
+	// for a peer hop: does any of ExpTime / ConsEgress differ from the regular hop entry of the same AS entry
+	DiffersFromEntry bool
 }
 
 // c28Seg is one path segment of a forwarding path (hops in travel order).
@@ -119,6 +121,7 @@ func (u c28Use) build() c28Part {
 			hf = e.PeerEntries[u.peer].HopField
 			h.PeerHop = true
 			h.Beta = c28Beta(u.s, i+1) // scion-header.rst, Peering Links: chained to beta_{i+1}
+			h.DiffersFromEntry = hf.ExpTime != e.HopEntry.HopField.ExpTime || hf.ConsEgress != e.HopEntry.HopField.ConsEgress
 		}
 		h.Exp, h.ConsIn, h.ConsEg, h.MAC = hf.ExpTime, hf.ConsIngress, hf.ConsEgress, hf.MAC
 		return h
@@ -192,6 +195,8 @@ type c28Cand struct {
 	Expiry  time.Time
 	ExpSeg  int // index of the path segment holding the earliest hop expiry (first one on ties)
 	ExpTie  bool
+	ExpPeer bool // the earliest expiry is (also) that of a peer hop field
+	PeerDiffers bool // some peer hop on the path differs in ExpTime / egress from its AS entry's hop entry
 	MTU     int
 	MTUKind string // kind of the element realising the minimum: as / link / peerlink (joined with + on ties)
 	Err     string
@@ -220,11 +225,14 @@ func c28Combine(kind string, uses ...c28Use) c28Cand {
 		}
 		for _, h := range p.seg.Hops {
 			e := c28Expiry(p.seg.TS, h.Exp)
+			c.PeerDiffers = c.PeerDiffers || h.DiffersFromEntry
 			switch {
 			case first || e.Before(c.Expiry):
 				c.Expiry, c.ExpSeg, c.ExpTie, first = e, si, false, false
-			case e.Equal(c.Expiry) && si != c.ExpSeg:
-				c.ExpTie = true
+				c.ExpPeer = h.PeerHop
+			case e.Equal(c.Expiry):
+				c.ExpTie = c.ExpTie || si != c.ExpSeg
+				c.ExpPeer = c.ExpPeer || h.PeerHop
 			}
 		}
 	}
